@@ -13,7 +13,8 @@ from props import c12 as C12       # Debug text -> generic tree words (the encod
 
 ID = "C13"
 DESIGN_REF = "DESIGN.md section 5, C13; design/C13.md"
-LEAN_TARGETS = ["PV.C13.Thm", "PV.C13.ParsedThm", "PV.C13.SpansThm", "PV.C13.SpansLexer"]
+LEAN_TARGETS = ["PV.C13.Thm", "PV.C13.ParsedThm", "PV.C13.SpansThm", "PV.C13.SpansLexer", "PV.C13.CrlfStep",
+                "PV.C13.CrlfClear"]
 DRIVER = "drv_c13"
 HARNESS = {"bin": "pvh_c13", "features": "default"}
 THEOREMS = [
@@ -70,11 +71,30 @@ THEOREMS = [
     "PV.C13.offsOk_of_spansOk_needs_plain",
     "PV.C13.spansOk_of_tiledP",
     "PV.C13.lexed_spansOk",
-    # ... and for the tokens of the lexer model: BOM part proved, CR LF part the one remaining hypothesis (CrlfClear)
+    # ... and for the tokens of the lexer model: BOM part (lexed_initCursor_le); with CrlfClear as a hypothesis
     "PV.C13.lexed_initCursor_le",
     "PV.C13.lexed_spansOk_of_crlfClear",
     "PV.C13.lexed_parsed_tree_locations_eq_spec",
     "PV.C13.lexed_parsed_tree_linear_eq_random",
+    # CrlfClear proved of the lexer model (CrlfStep.lean: one step; CrlfClear.lean: the stream, chars -> bytes), and the
+    # capstones without any hypothesis about offsets
+    "PV.C13.Crlf.lexNumber_noCR",
+    "PV.C13.Crlf.consumeCharacter_clear",
+    "PV.C13.Crlf.consumeNormal_clear",
+    "PV.C13.Crlf.eatIndent_clear",
+    "PV.C13.Crlf.handleIndentations_clear",
+    "PV.C13.Crlf.step_clear",
+    "PV.C13.lexAll_clear",
+    "PV.C13.lexed_chars_clear",
+    "PV.C13.split_of_insideCrlf",
+    "PV.C13.lexed_crlfClear_spanned",
+    "PV.C13.lexed_crlfClear",
+    "PV.C13.lexed_spansOk'",
+    "PV.C13.onBoundary_after_ascii",
+    "PV.C13.lineStartsOk_utf8Encode",
+    "PV.C13.lexed_parsed_tree_srcOrdered'",
+    "PV.C13.lexed_parsed_tree_locations_eq_spec'",
+    "PV.C13.lexed_parsed_tree_linear_eq_random'",
 ]
 TRUSTED = [
     "Lean 4.33.0 kernel; axioms limited to propext, Classical.choice, Quot.sound",
@@ -101,8 +121,10 @@ TRUSTED = [
     "parser's tree up to leaf payloads (skel), and the fold model run on the model's tree must answer byte-for-byte what the real "
     "fold did on the real parse; the hypotheses and conclusions of the parser-level theorems are re-evaluated on every such input",
     "for lexed_*: the lexer model PV.Lexer.lex (lean/PV/Lexer/*.lean; C05's trusted base, tied to lexer.rs by C05's own streams) "
-    "and C05's theorems tokens_in_bounds / tokens_on_boundaries / tokens_ordered_disjoint through PV.C02.tiledP_of_lexer; the "
-    "token VALUES of the lexer model and of the parser model are not related by a theorem (spans only), as in C02",
+    "and C05's theorems tokens_in_bounds / tokens_on_boundaries / tokens_ordered_disjoint through PV.C02.tiledP_of_lexer; "
+    "UParams.Sane (CR, LF are no identifier characters, XID_Start within XID_Continue: checked on the real tables for every "
+    "scalar value by C05's pre_build); the token VALUES of the lexer model and of the parser model are not related by a "
+    "theorem (spans only), as in C02",
     "memchr2/memrchr2 modelled as first/last index of LF or CR; str::chars().count() on valid UTF-8 = number of "
     "non-continuation bytes; source length < 2^32",
     "tools/props/c13.py (generators, independent Python reference for row/column), tools/props/c12.py + "
@@ -121,12 +143,14 @@ PARTIAL = [
     "no longer a hypothesis: offsOk_of_spansOk derives it from SpansOk, the same three facts about the starts and ends of the "
     "INPUT tokens (parsed_offsets_token_ends: every offset of a plain parser-built tree is a token start or end), except for "
     "the one shape of the listed finding linear-bom-tokenless-module-all-ranges (NotBomTokenless; offsOk_of_spansOk_needs_side). "
-    "Of SpansOk, (a) character boundaries is part of TiledP (spansOk_of_tiledP) and (c) 'no token starts inside a leading BOM' "
-    "is proved of the lexer model (lexed_initCursor_le); (b) 'no token starts or ends between a CR and its LF' (CrlfClear) "
-    "REMAINS A HYPOTHESIS of lexed_parsed_tree_*: true of the lexer (a CR LF is one Newline / NonLogicalNewline token, or "
-    "interior to a string token or a gap) but not stated by any theorem about the lexer model; it is evaluated on the REAL "
-    "token spans of every `*-pfold` request (chk=ok requires the spans tiled and SpansOk; evidence "
-    "coverage.ordM_on_model_parsed_trees.spans_not_ok = 0)",
+    "Of SpansOk, (a) character boundaries is part of TiledP (spansOk_of_tiledP), (c) 'no token starts inside a leading BOM' "
+    "(lexed_initCursor_le) and (b) 'no token starts or ends between a CR and its LF' (CrlfClear: lexed_crlfClear, for every "
+    "text, both lexer configurations, every sane Unicode table — step_clear / lexAll_clear: no step of the lexer model stops "
+    "or pushes a token between a CR and its LF; split_of_insideCrlf: character positions to byte offsets) are all PROVED of "
+    "the lexer model, and LineStartsOk (what the locator theorems need of valid UTF-8) holds for the encoding of every list of "
+    "scalar values (lineStartsOk_utf8Encode), so lexed_parsed_tree_*' have NO hypothesis about offsets or about the text left "
+    "(what remains: Sane Unicode tables, plainM, NotBomTokenless); SpansOk is additionally evaluated on the REAL token spans of every `*-pfold` "
+    "request (chk=ok requires the spans tiled and SpansOk; evidence coverage.ordM_on_model_parsed_trees.spans_not_ok = 0)",
     "the parser-level theorems are about the MODEL parser PV.C02.parseRProgram on real token values; that the model computes "
     "the real parser's ranges is sampled by the `*-pfold` streams here and by C02's ranged-program-model streams, not proved",
     "the property's literal 'whatever order the tree's nodes appear in' is false for the LinearLocator "
@@ -166,11 +190,15 @@ LEVEL_TEXT = ("Machine-checked Lean 4 theorems. Locators (texts and call histori
               "the tree the real parser produced, the fold model's call history and both located trees compared "
               "byte-for-byte with the real fold's; the real code is additionally judged on every node position by an "
               "independent Python reference. Parser output (model level): for token spans that tile the source and start / "
-              "end at positions the locator accepts (SpansOk: a fact about the lexer's output, of which only 'not between a "
-              "CR and its LF' is not proved of the lexer model), every tree without f-string pieces that the program-parser "
-              "model builds is SrcOrdered, so both sentences of the property hold for it (parsed_tree_locations_eq_spec', "
-              "parsed_tree_linear_eq_random', lexed_parsed_tree_*): every offset of such a tree is a token start or end "
-              "(parsed_offsets_token_ends) and the fields of every node lie in fold order (parsed_ordM).")
+              "end at positions the locator accepts (SpansOk: a fact about the lexer's output, PROVED of the lexer model for "
+              "every text — character boundaries by C05, behind a leading BOM by lexed_initCursor_le, never between a CR and "
+              "its LF by lexed_crlfClear), every tree without f-string pieces that the program-parser model builds is "
+              "SrcOrdered, so both sentences of the property hold for it (parsed_tree_locations_eq_spec', "
+              "parsed_tree_linear_eq_random'; from ANY text through lexer model, parser model and fold model with no "
+              "hypothesis about offsets or UTF-8 validity: lexed_parsed_tree_locations_eq_spec', "
+              "lexed_parsed_tree_linear_eq_random'): every "
+              "offset of such a tree is a token start or end (parsed_offsets_token_ends) and the fields of every node lie in "
+              "fold order (parsed_ordM).")
 LEVEL_NOTE = ("Trusted: Lean kernel (axioms propext/Classical.choice/Quot.sound only); fidelity of the hand-written locator "
               "model and of the transcribed overrides as sampled by the correspondence; the C12 translator for the "
               "generated fold; the parser-level theorems speak about the model parser of C02 (tied per input by the pfold streams) and "
